@@ -471,7 +471,7 @@ impl Prop for C05 {
                     gen: enum_small,
                 },
             },
-            Stage { name: "random", kind: StageKind::Random { strategy: strat, cases: tier.pick(150_000, 3_000_000) } },
+            Stage { name: "random", kind: StageKind::Random { strategy: strat, cases: tier.pick(600_000, 4_000_000) } },
         ]
     }
     fn check(case: &Case, obs: &mut Obs) -> Verdict {
